@@ -1086,8 +1086,22 @@ def check_validators(cx, iid="C03.V"):
             if not good:
                 inst.violation(b.path, "base_id advance", "the send window can be advanced by an ack without `receiver_delta <= span` (an ack may not move the window past next_id)",
                                detail={"facts_on_offending_path": sorted(bad or [])})
+        # the predicate itself: true only under 0 < delta <= frames sent beyond the window base
+        from rules import return_alts
+        from mirlib import alt_satisfies
+        cp = R.body("FrameQueue::can_advance_transfer_window")
+        tr = return_alts(cx, cp, True)
+        d = r"u32::wrapping_sub\(arg2,arg1\.window\.base_id\)"
+        okp = bool(tr) and all(alt_satisfies(a, [r"ne\(0,%s\)" % d, r"le\(%s,u32::wrapping_sub\(FrameLog::next_id\(arg1\.frame_log\),arg1\.window\.base_id\)\)" % d]) for _, a in tr)
+        inst.site(cp, None, "can_advance_transfer_window true only under 0 < delta <= next_delta: %s" % okp)
+        if not okp:
+            inst.violation(cp.path, "can_advance_transfer_window", "the ack-reported frame window base is accepted although it is not within (base, next_id]: the log would be culled past frames never sent")
         fq = R.body("FrameQueue::advance_transfer_window")
         sinks = write_sites(fq, r"arg1\.transfer_window\.base_id") + call_sites(fq, "FrameQueue::cull_log_entries")
+        culls = call_sites(fq, "FrameQueue::cull_log_entries")
+        dl = r"u32::wrapping_sub\(u32::wrapping_sub\(arg1\.window\.base_id,arg1\.window\.tail_size\),FrameLog::base_id\(arg1\.frame_log\)\)"
+        cx.guard(inst, fq, culls, [[r"ne\(0,%s\)" % dl, r"le\(%s,FrameLog::len\(arg1\.frame_log\)\)" % dl]], construct="log culled beyond its length",
+                 why="FrameLog::drain would be asked to remove more frames than the log holds")
         cx.guard(inst, fq, sinks, [[r"FrameQueue::can_advance_transfer_window\(arg1,arg2\)"]], construct="transfer window advance",
                  why="the receiver-reported frame window base must lie within the frames actually sent")
 
